@@ -104,3 +104,38 @@ pub fn add_panic_fault(s: &mut Scenario, rng: &mut Prng) -> &'static str {
     s.warm_cache = false;
     label
 }
+
+
+/// Systematic fault plans of one block: every key the in-order reference reads (call order,
+/// de-duplicated), then every key only a stale attempt reads (reference with one predecessor
+/// removed), then the fee recipient; crossed with the modes persistent / fail-once / fail-at-second-call.
+/// Ordered mode-major so that the first |keys| plans put a persistent fault on every key once.
+pub fn enumerate_plans(s: &Scenario) -> Vec<(FaultKey, FaultMode, &'static str)> {
+    let mut keys: Vec<(FaultKey, &'static str)> = Vec::new();
+    let in_order = reference_reads(s, None);
+    for k in &in_order {
+        let fk = to_fault_key(k);
+        if !keys.iter().any(|(x, _)| *x == fk) {
+            keys.push((fk, "reference-key"));
+        }
+    }
+    for skip in 0..s.txs.len().saturating_sub(1) {
+        for k in reference_reads(s, Some(skip)) {
+            let fk = to_fault_key(&k);
+            if !keys.iter().any(|(x, _)| *x == fk) {
+                keys.push((fk, "stale-only-key"));
+            }
+        }
+    }
+    let b = FaultKey::Basic(s.block.beneficiary);
+    if !keys.iter().any(|(x, _)| *x == b) {
+        keys.push((b, "beneficiary-key"));
+    }
+    let mut plans = Vec::new();
+    for mode in [FaultMode::Persistent, FaultMode::Once, FaultMode::Nth(1)] {
+        for (k, origin) in &keys {
+            plans.push((k.clone(), mode.clone(), *origin));
+        }
+    }
+    plans
+}
